@@ -349,8 +349,16 @@ pub fn build(spec: &PathSpec) -> Built {
     };
     let mut root = Module::default();
     let mut subs: Vec<Module> = vec![Module::default(), Module::default()];
+    // bits 12.. of `nested` seed two more shape choices (old replay files: 0)
+    // (not for the value-stack fault: the recursion test needs more stack than the site)
+    let recurse: usize = if spec.depth >= 1 && spec.contexts.is_empty() && spec.kind != ErrKind::Stackoverflow { ((spec.nested >> 13) & 3) as usize } else { 0 };
+    let main_last = (spec.nested >> 12) & 1 == 1;
+    let mut rec_call: Option<CardId> = None;
     for lvl in 0..=spec.depth {
         let mut f = Function::default();
+        if lvl == 0 && recurse > 0 {
+            f.cards.push(Card::set_global_var("g_rec", Card::scalar_int(recurse as i64)));
+        }
         for j in 0..spec.prefix[lvl] {
             // cards in front of the interesting one: some produce code, some (comments, empty
             // composites) produce none
@@ -380,6 +388,22 @@ pub fn build(spec: &PathSpec) -> Built {
                 7 => c(CardBody::IfFalse(bin(Card::scalar_int(0), c(CardBody::Comment("then".into()))))),
                 _ => c(CardBody::IfElse(Box::new([Card::scalar_int((j % 2) as i64), c(CardBody::Comment("then".into())), c(CardBody::Comment("else".into()))]))),
             });
+        }
+        if lvl == spec.depth && recurse > 0 {
+            // the site's function first calls itself `recurse` times through one and the same call
+            // card: the chain lists that card once per activation
+            let rc = Card::call_function(format!("lvl{lvl}"), vec![]);
+            rec_call = Some(rc.id);
+            f.cards.push(c(CardBody::IfTrue(bin(
+                c(CardBody::Less(bin(Card::scalar_int(0), Card::read_var("g_rec")))),
+                Card::composite_card(
+                    "again",
+                    vec![
+                        Card::set_global_var("g_rec", c(CardBody::Sub(bin(Card::read_var("g_rec"), Card::scalar_int(1))))),
+                        Card::return_card(rc),
+                    ],
+                ),
+            ))));
         }
         if lvl == spec.depth {
             if needs_mark {
@@ -411,6 +435,11 @@ pub fn build(spec: &PathSpec) -> Built {
         }
     }
     chain.reverse(); // innermost first
+    if let Some(rc) = rec_call {
+        for _ in 0..recurse {
+            chain.insert(0, rc);
+        }
+    }
     // helpers used by contexts (root module, absolute names)
     root.functions.push(("two".into(), Function::default().with_arg("a").with_arg("b").with_card(Card::return_card(Card::read_var("a")))));
     root.functions.push(("leaf".into(), Function::default().with_card(Card::return_card(Card::scalar_int(3)))));
@@ -422,6 +451,11 @@ pub fn build(spec: &PathSpec) -> Built {
             Card::return_card(Card::read_var("t")),
         ]),
     ));
+    if main_last {
+        // `main` need not be the first function of its module
+        let main_fn = root.functions.remove(0);
+        root.functions.push(main_fn);
+    }
     for (i, s) in subs.into_iter().enumerate() {
         if !s.functions.is_empty() {
             root.submodules.push((format!("sub{i}"), s));
